@@ -32,6 +32,14 @@ theorem consistent_v10_partial : checkB opTable_v10 levels10impl false = true :=
 
 theorem consistent_v10_fails : checkB opTable_v10 levels10 false = false := by decide +kernel
 
+/-- the guards of the optional-once operators are complete within their class: a general comparison
+rejects a general comparison as left operand, a value comparison a value comparison, `is` an `is`,
+`to` a `to` (2.0, 3.0, 3.1; the 1.0 table has the general class only) -/
+theorem guards_v31 : guardsB opTable_v31 = true := by decide +kernel
+theorem guards_v30 : guardsB opTable_v30 = true := by decide +kernel
+theorem guards_v20 : guardsB opTable_v20 = true := by decide +kernel
+theorem guards_v10 : guardsB opTable_v10 = true := by decide +kernel
+
 /-! ### hence: every accepted token list is parsed into a (relaxed) derivation with that yield -/
 
 theorem derives_v31 (toks : List Tok) (t : Tree) (h : parse (tableOf opTable_v31) toks = .ok t) :
@@ -55,6 +63,39 @@ theorem derives_strict_v31 (toks : List Tok) (t : Tree) (h : parse (tableOf opTa
     (hl : laxFree (gramOf levels31 true (syms opTable_v31)) t = true) :
     derivable (gramOf levels31 true (syms opTable_v31)) 0 t = true :=
   pratt_derives_strict _ _ _ _ (consistent_of_check _ _ _ consistent_v31) toks t h hl
+
+def t_mixed : List Tok :=
+  let r := opTable_v31
+  [nm 1, opTok r "or", nm 2, opTok r "and", nm 3, opTok r "=", nm 4, opTok r "+", nm 5,
+   opTok r "*", opTok r "-", nm 6, opTok r "[", num 1, .close 1]
+
+/-! ### and conversely: every EBNF derivation that the guards let pass is what the parser returns -/
+
+/-- XPath 3.1: the parser returns exactly the EBNF derivation on its token sequence -/
+theorem complete_v31 (t : Tree) (hd : derivable (gramOf levels31 true (syms opTable_v31)) 0 t = true)
+    (hg : guardsPass (tableOf opTable_v31) t = true) : parse (tableOf opTable_v31) t.yield = .ok t :=
+  pratt_complete _ _ _ _ (consistent_of_check _ _ _ consistent_v31) (pos_of_check _ _ _ consistent_v31) t hd hg
+
+theorem complete_v30 (t : Tree) (hd : derivable (gramOf levels30 true (syms opTable_v30)) 0 t = true)
+    (hg : guardsPass (tableOf opTable_v30) t = true) : parse (tableOf opTable_v30) t.yield = .ok t :=
+  pratt_complete _ _ _ _ (consistent_of_check _ _ _ consistent_v30) (pos_of_check _ _ _ consistent_v30) t hd hg
+
+/-- PARTIAL (F04b): with respect to `levels20impl` (2.0 levels + dynamic call) -/
+theorem complete_v20_partial (t : Tree) (hd : derivable (gramOf levels20impl true (syms opTable_v20)) 0 t = true)
+    (hg : guardsPass (tableOf opTable_v20) t = true) : parse (tableOf opTable_v20) t.yield = .ok t :=
+  pratt_complete _ _ _ _ (consistent_of_check _ _ _ consistent_v20_partial)
+    (pos_of_check _ _ _ consistent_v20_partial) t hd hg
+
+/-- PARTIAL (F04a): with respect to `levels10impl` (one optional-once comparison level) -/
+theorem complete_v10_partial (t : Tree) (hd : derivable (gramOf levels10impl false (syms opTable_v10)) 0 t = true)
+    (hg : guardsPass (tableOf opTable_v10) t = true) : parse (tableOf opTable_v10) t.yield = .ok t :=
+  pratt_complete _ _ _ _ (consistent_of_check _ _ _ consistent_v10_partial)
+    (pos_of_check _ _ _ consistent_v10_partial) t hd hg
+
+/-- non-vacuity: the hypotheses of `complete_v31` hold on a non-trivial tree, and its conclusion computes -/
+example : derivable (gramOf levels31 true (syms opTable_v31)) 0 ((modelParse opTable_v31 t_mixed).toOption.getD .nil) = true ∧
+    guardsPass (tableOf opTable_v31) ((modelParse opTable_v31 t_mixed).toOption.getD .nil) = true ∧
+    ((modelParse opTable_v31 t_mixed).toOption.getD .nil).yield = t_mixed := by decide +kernel
 
 /-! ### kernel-checked witnesses of the findings (token lists are built by symbol lookup) -/
 
@@ -122,11 +163,6 @@ theorem f04d_path_operand :
     (specParse levels10 false opTable_v10 w_filter10).isSome = true ∧ rejects opTable_v10 w_filter10 = true ∧
     (specParse levels31 true opTable_v31 w_lookup_path31).isSome = true ∧ rejects opTable_v31 w_lookup_path31 = true := by
   decide +kernel
-
-def t_mixed : List Tok :=
-  let r := opTable_v31
-  [nm 1, opTok r "or", nm 2, opTok r "and", nm 3, opTok r "=", nm 4, opTok r "+", nm 5,
-   opTok r "*", opTok r "-", nm 6, opTok r "[", num 1, .close 1]
 
 /-- test (literals): `n1 or n2 and n3 = n4 + n5 * - n6 [ 1 ]`: model = reference parser, and it parses -/
 example : (modelParse opTable_v31 t_mixed).toOption = specParse levels31 true opTable_v31 t_mixed ∧
